@@ -344,8 +344,26 @@ def otel(ctx, facts, rule_f):
     sd = fn.single_def(root_local(fn, ev)[0]) if ev["k"] in ("copy", "move") else None
     okev = bool(sd) and sd[1] == "term" and sd[2]["callee"] == "fastrace_opentelemetry::map_events" and \
         has_origin(prov.of_operand(fn, sd[2]["args"][0]), kind="param", key=2, path_suffix=(".events",))
-    ctx.check(okev, rule_f, fn.path, fn.loc(b), "SpanData.events <- map_events(record.events)", "", "events operand is not map_events(record.events)", extra="SpanData.events")
     me = facts.fn("fastrace_opentelemetry::map_events")
+    EV_NEW = r"opentelemetry::trace::Event::new$|trace::span::Event::new$|Event::new$"
+    if me is None:
+        # the conversion of events lives elsewhere (a method, a trait impl, inlined into convert): the function that builds the Events
+        hosts = [g for g in facts.fns.values() if g.crate == "fastrace_opentelemetry" and g.calls_re(EV_NEW, cleanup=False)]
+        roots = {re.sub(r"(::\{closure#[^}]*\})+$", "", g.path) for g in hosts}
+        if len(roots) == 1 and facts.fn(next(iter(roots))) is not None:
+            me = facts.fn(next(iter(roots)))
+    if not okev and me is not None:
+        evs = prov.of_operand(fn, ev) if ev["k"] in ("copy", "move") else set()
+        okev = any(x.kind == "param" and x.key == 2 and ".events" in x.path for x in evs) and \
+            (me.path == re.sub(r"(::\{closure#[^}]*\})+$", "", fn.path) or any(v[0] == "call" and v[1] == me.path for x in evs for v in x.via))
+    if not okev and me is not None and me.path == re.sub(r"(::\{closure#[^}]*\})+$", "", fn.path):
+        # built in place: a SpanEvents value whose list is filled from record.events (extend / push of Event values)
+        for gb in fn.calls_re(r"Extend(<.*>)?>?::extend$|Vec::<T, A>::(extend\w*|push|append)$", cleanup=False):
+            tt = fn.term(gb)
+            if "Event" in tt["arg_tys"][0] and len(tt["args"]) > 1 and \
+                    any(x.kind == "param" and x.key == 2 and ".events" in x.path for x in prov.of_operand(fn, tt["args"][1])):
+                okev = True
+    ctx.check(okev, rule_f, fn.path, fn.loc(b), "SpanData.events <- map_events(record.events)", "", "events operand is not map_events(record.events)", extra="SpanData.events")
     if me is not None:
         host, c = me, me.calls_re(r"opentelemetry::trace::Event::new$|trace::span::Event::new$|Event::new$", cleanup=False)
         if not c:
